@@ -346,6 +346,7 @@ type nodeSim struct {
 	noReportJudge bool
 	dst        *dtlsrState
 	pst        *prophetState
+	overlapKeys map[string]bool // store keys on which two read-modify-write sequences overlapped (also untracked bundles)
 	pstBorn time.Time // when the current incarnation started (zero: first incarnation)
 	vecSeq     int
 	emitted    map[string]bool
@@ -515,7 +516,11 @@ func (n *nodeSim) settle() {
 			n.dtlsrBroadcastSend(rec, true)
 			n.sched.Release(t, out)
 		} else {
-			n.lg.Add("release %s:%s", t.Point, shortKey(t.Key))
+			if os.Getenv("VERIF_LABELS") != "" {
+				n.lg.Add("release %s", t.Label) // debugging aid: full lineage (changes the log hash)
+			} else {
+				n.lg.Add("release %s:%s", t.Point, shortKey(t.Key))
+			}
 			n.res.Probe("hook_release_" + t.Point)
 			if t.Point == "zappear" {
 				if sp, ok := t.Data.(*simPeer); ok {
@@ -555,6 +560,10 @@ func (n *nodeSim) noteOverlaps(parked []*simk.Task) {
 			continue
 		}
 		n.res.Probe("overlapping_rmw")
+		if n.overlapKeys == nil {
+			n.overlapKeys = map[string]bool{}
+		}
+		n.overlapKeys[k] = true
 		for _, tr := range n.tracks {
 			if tr.id.Scrub().String() == k || n.wireIDMatches(tr, k) {
 				tr.overlapRMW = true
